@@ -3,6 +3,8 @@ mod driver;
 mod exec;
 mod gen;
 mod interp;
+mod model;
+mod osc;
 mod prog;
 mod props;
 mod pt;
@@ -31,6 +33,24 @@ fn main() {
         println!("executions={} complete={} outcomes={} depth={} nd={:?} in {:?}", r.executions, r.complete, r.outcomes.len(), r.max_depth, r.nondeterminism, t0.elapsed());
         for (o, (n, path)) in r.outcomes.iter().take(40) {
             println!("{n:>8} {:?} {:?} via {:?}", o.term, o.logs, path);
+        }
+        0
+    } else if args[0] == "--osc" {
+        // development aid: two-sided outcome-set comparison of one program file
+        common::install_silent_hook();
+        let p: prog::Prog = serde_json::from_str(&std::fs::read_to_string(&args[1]).unwrap()).unwrap();
+        p.validate().unwrap();
+        let t0 = std::time::Instant::now();
+        let r = osc::compare(&std::sync::Arc::new(p), &osc::OscCaps { shuttle_executions: 2_000_000, max_failing: 100_000, model_states: 2_000_000 });
+        println!(
+            "judged={} ({}) shuttle: {} executions, {} outcomes; model: must {} / may {} outcomes, {} states; in {:?}",
+            r.judged, r.too_large_reason, r.shuttle_executions, r.shuttle_outcomes, r.must_outcomes, r.may_outcomes, r.model_states, t0.elapsed()
+        );
+        for (o, path) in r.unsound.iter().take(10) {
+            println!("UNSOUND (Shuttle produces, contracts forbid): {} via {:?}", osc::describe(o), path);
+        }
+        for o in r.missing.iter().take(10) {
+            println!("MISSING (contracts require reachable, no schedule produces): {}", osc::describe(o));
         }
         0
     } else if args[0] == "--list" {
